@@ -11,6 +11,9 @@ QUICK = [
      dict(Ops={"switch_latest", "switch_map"}, Tabs={"plain"}, Flavours={"sync", "cold"}, MaxOuter=2, OTimes={0, 1, 2},
           OTermTimes={0, 2, 5}, DspTicks={0, 1, 2, 3})),
     ("exclusive (growth)", dict(Ops={"exclusive"}, Tabs={"plain", "error"}, Flavours={"cold", "sync"}, OTermTimes={2, 3, 5})),
+    ("cut by take(k) in the middle of a notification",
+     dict(Ops={"switch_latest", "exclusive"}, Tabs={"short"}, Flavours={"sync"}, RG=False, OTimes={0, 1}, OTermTimes={2},
+          OTerms={"C", "U"}, Takes={1, 2})),
 ]
 
 THOROUGH = [
@@ -28,11 +31,16 @@ THOROUGH = [
     ("generated tables", dict(Ops={"switch_latest"}, Tabs={"gen"}, Flavours={"cold", "sync"}, MaxOuter=3, OTimes={1, 2},
                               OTermTimes={1, 2, 4}, GenN=2, GenLen=2, GenTimes={0, 1, 2})),
     ("exclusive (growth)", dict(Ops={"exclusive"}, Tabs={"plain", "short", "error", "never"}, Flavours={"cold", "sync", "hot"}, RG=False)),
+    ("cut by take(k) in the middle of a notification",
+     dict(Ops={"switch_latest", "switch_map", "exclusive"}, Tabs={"short", "plain", "error"}, Flavours={"sync", "cold"}, RG=False,
+          OTimes={0, 1, 2}, OTermTimes={2, 5}, OTerms={"C", "U"}, Takes={1, 2, 3})),
+    ("mapper returning a list", dict(Ops={"switch_map", "switch_map_indexed", "flat_map_latest"}, Tabs={"zero"}, Flavours={"cold"},
+                                     RG=False, Faults=True)),
 ]
 SIM = ("simulate: generated tables, 3 inners",
        dict(Ops={"switch_latest", "switch_map", "switch_map_indexed", "flat_map_latest", "exclusive"}, Tabs={"gen"},
             Flavours={"cold", "sync", "hot"}, MaxOuter=4, OTimes={1, 2, 3, 4}, OTermTimes={1, 2, 3, 4, 6, 8}, GenN=3, GenLen=3,
-            GenTimes={0, 1, 2, 3}, RG=False, Faults=True, DspTicks={1, 3, 5}))
+            GenTimes={0, 1, 2, 3}, RG=False, Faults=True, DspTicks={1, 3, 5}, Takes={2, 3}))
 
 
 def run(tier):
